@@ -474,7 +474,8 @@ func c18(r *h.Result, rng *h.Rng, tier string, replay string) error {
 	defer c18SetPrefix(nil)
 	r.Rule = "a case = one schedule (mode, optional older-release start state, failure points (call number, applied or not)) followed by two clean starts; " +
 		"real InitDBTry+Update on the fake connection vs the Lean model, compared per start on (status, calls issued, database state); " +
-		"non-trivial = at least one start actually stopped at its failure point; distinct by schedule"
+		"non-trivial = at least one start actually stopped at its failure point; distinct by schedule. " +
+		"cluster-* streams: a case = (mode, N nodes, parameter instance, optional older release, starts each with its connection and failure point (call, set of nodes it still took effect on, kill/error)) followed by two uninterrupted starts; real InitDBTry+Update (ctrl-init: the real ctrl.Init through a ConnectV2 build overlay) on the fake cluster vs the Lean cluster model, compared per start on (status, calls that reached a node, per-node catalogue and ver rows)"
 
 	if replay != "" {
 		b, err := os.ReadFile(replay)
@@ -483,6 +484,26 @@ func c18(r *h.Result, rng *h.Rng, tier string, replay string) error {
 		}
 		if err != nil {
 			return err
+		}
+		var kind struct {
+			Replay struct {
+				Kind string `json:"kind"`
+			} `json:"replay"`
+		}
+		_ = json.Unmarshal(b, &kind)
+		if kind.Replay.Kind == "cluster" {
+			var cw struct {
+				Replay c18CSched `json:"replay"`
+			}
+			if err := json.Unmarshal(b, &cw); err != nil {
+				return err
+			}
+			r.Stream("replay of " + replay + " (cluster)")
+			cb := &c18CBatch{stream: "replay"}
+			if _, err := cb.run(r, cw.Replay, "f"); err != nil {
+				return err
+			}
+			return cb.flush(r)
 		}
 		var wrap struct {
 			Replay c18Sched `json:"replay"`
@@ -638,6 +659,14 @@ func c18(r *h.Result, rng *h.Rng, tier string, replay string) error {
 		}
 	}
 	if err := bt.flush(r); err != nil {
+		return err
+	}
+
+	// ---- the cluster model (c18cluster.go)
+	if err := c18Cluster(r, rng.Fork(), tier); err != nil {
+		return err
+	}
+	if err := c18CtrlInit(r, rng.Fork(), tier); err != nil {
 		return err
 	}
 
